@@ -651,12 +651,13 @@ Qed.
 Definition flags_ok (r : frec) : Prop :=
   (f_pending r = true -> f_held r = [] /\ f_bound r = true) /\     (* waiting for start: holds nothing, still bound *)
   (f_bound r = false -> f_held r = []) /\                          (* unbound (deleted/rebound): holds nothing *)
-  (f_held r <> [] -> f_tracked r = true).                          (* whatever holds a name is released by ctx.stop() *)
+  (f_held r <> [] -> f_tracked r = true) /\                        (* whatever holds a name is released by ctx.stop() *)
+  f_tracked r = true.                                              (* conformant: every function object is recorded in its context *)
 Definition Flags (s : st) : Prop := forall r, In r (s_funcs s) -> flags_ok r.
 Definition WInv (s : st) : Prop := Core s /\ Flags s.
 
 Lemma flags_held_nil r : flags_ok r -> flags_ok (with_held [] r).
-Proof. intros (A & B & C). repeat split; cbn; auto; try tauto. Qed.
+Proof. intros (A & B & C & D). repeat split; cbn; auto; try tauto. Qed.
 
 (* F' is F where some objects lost holdings / flags; nothing was added *)
 Definition shrinks (F F' : list frec) : Prop :=
@@ -729,7 +730,7 @@ Proof.
     split; [split; [exact HC'|]|split; [|split; [rewrite Efi; reflexivity|rewrite En; reflexivity]]].
     - intros r' H. rewrite Ef in H. apply in_upd_rec in H. destruct H as (r0 & Hr0 & ->).
       destruct (N.eqb_spec (f_gen r0) (f_gen r)) as [E|Hne].
-      + rewrite (Hgen1 r0 Hr0 E). unfold flags_ok. cbn. repeat split; auto; congruence.
+      + rewrite (Hgen1 r0 Hr0 E). pose proof (proj2 (proj2 (proj2 (HF r Hr)))) as Htr. unfold flags_ok. cbn. repeat split; auto; congruence.
       + apply Hfl1; assumption.
     - rewrite Ef. eapply shrinks_trans; [exact Hsh1|]. apply shrinks_upd. intros; cbn; auto 6. }
   assert (Hrelease : forall lg, f_pending r = false -> WInv (release all_off lg s1 r) /\ shrinks F (s_funcs (release all_off lg s1 r)) /\
@@ -744,7 +745,7 @@ Proof.
   split; [split; [exact HC2|]|split; [|split; reflexivity]].
   - intros r' H. cbn in H. apply in_upd_rec in H. destruct H as (r0 & Hr0 & ->).
     destruct (N.eqb_spec (f_gen r0) (f_gen r)) as [E|Hne].
-    + rewrite (Hgen1 r0 Hr0 E). destruct (HF r Hr) as (A & _). destruct (A Ep) as (Hh & _).
+    + rewrite (Hgen1 r0 Hr0 E). pose proof (proj2 (proj2 (proj2 (HF r Hr)))) as Htr. destruct (HF r Hr) as (A & _). destruct (A Ep) as (Hh & _).
       unfold flags_ok. cbn. rewrite Hh. repeat split; auto; congruence.
     + apply Hfl1; assumption.
   - cbn. eapply shrinks_trans; [exact Hsh1|]. apply shrinks_upd. intros; cbn. repeat split; auto; discriminate.
@@ -908,10 +909,8 @@ Proof.
   destruct (N.eqb (f_gen r0) (f_gen r)); [apply flags_held_nil|]; apply HF; assumption.
 Qed.
 
-Definition stop_step (legacy : bool) (s : st) (r : frec) : st := if f_tracked r then release all_off legacy s r else s.
-
 Lemma release_list legacy todo : forall s, WInv s -> NoDup (gens todo) -> (forall r, In r todo -> In r (s_funcs s)) ->
-  let s' := fold_left (stop_step legacy) todo s in
+  let s' := fold_left (stop_step all_off legacy) todo s in
   WInv s' /\ shrinks (s_funcs s) (s_funcs s') /\ s_files s' = s_files s /\ s_next s' = s_next s /\
   (forall r', In r' (s_funcs s') -> In (f_gen r') (gens (filter f_tracked todo)) -> f_held r' = []).
 Proof.
@@ -919,7 +918,7 @@ Proof.
   - split; [assumption|]. split; [apply shrinks_refl|]. repeat split; auto. intros r' _ [].
   - cbn in Hnd. inversion Hnd as [|? ? Hnot Hnd']; subst.
     assert (Hr : In r (s_funcs s)) by (apply Hin; left; reflexivity).
-    set (s1 := stop_step legacy s r).
+    set (s1 := stop_step all_off legacy s r).
     assert (H1 : WInv s1 /\ shrinks (s_funcs s) (s_funcs s1) /\ s_files s1 = s_files s /\ s_next s1 = s_next s /\
                  (forall r2, In r2 todo -> In r2 (s_funcs s1)) /\
                  (f_tracked r = true -> forall r', In r' (s_funcs s1) -> f_gen r' = f_gen r -> f_held r' = [])).
@@ -931,7 +930,7 @@ Proof.
           exfalso. apply Hnot. rewrite <- E. apply in_map. assumption.
         + intros _ r' H' E. apply in_upd_rec in H'. destruct H' as (r0 & Hr0 & ->).
           destruct (N.eqb_spec (f_gen r0) (f_gen r)) as [_|Hne]; [reflexivity|congruence].
-      - split; [assumption|]. split; [apply shrinks_refl|]. split; [reflexivity|]. split; [reflexivity|]. split; [intros r2 H2; apply Hin; right; assumption|discriminate]. }
+      - exfalso. pose proof (proj2 (proj2 (proj2 (proj2 HW r Hr)))) as Htr. congruence. }
     destruct H1 as (A & B & C & D & E & G).
     destruct (IH s1 A Hnd' E) as (A' & B' & C' & D' & E').
     split; [assumption|]. split; [eapply shrinks_trans; eassumption|]. split; [congruence|]. split; [congruence|].
@@ -946,8 +945,8 @@ Definition NoCtx (c : cid) (F : list frec) : Prop := forall r, In r F -> f_ctx r
 
 Lemma stop_ctx_eq legacy s c :
   stop_ctx all_off legacy s c =
-  let s1 := fold_left (stop_step legacy) (filter (fun r => N.eqb (f_ctx r) c) (s_funcs s)) s in
-  set_funcs s1 (filter (fun r => negb (N.eqb (f_ctx r) c)) (s_funcs s1)).
+  let s1 := fold_left (stop_step all_off legacy) (filter (fun r => N.eqb (f_ctx r) c) (s_funcs s)) s in
+  set_funcs s1 (filter (fun r => negb (N.eqb (f_ctx r) c) || nonempty (f_held r)) (s_funcs s1)).
 Proof. reflexivity. Qed.
 
 Lemma nodup_gens_filter p F : NoDup (gens F) -> NoDup (gens (filter p F)).
@@ -967,21 +966,24 @@ Proof.
   destruct (release_list legacy todo s HW) as (HW1 & Hsh & Efi & En & Hrel).
   { apply nodup_gens_filter, core_nodup, HW. }
   { intros r H. apply filter_In in H. tauto. }
-  set (s1 := fold_left (stop_step legacy) todo s) in *.
-  assert (Hempty : forall r', In r' (s_funcs s1) -> negb (N.eqb (f_ctx r') c) = false -> f_held r' = []).
-  { intros r' H' Ec. apply negb_false_iff, N.eqb_eq in Ec.
+  set (s1 := fold_left (stop_step all_off legacy) todo s) in *.
+  assert (Hempty : forall r', In r' (s_funcs s1) -> N.eqb (f_ctx r') c = true -> f_held r' = []).
+  { intros r' H' Ec. apply N.eqb_eq in Ec.
     destruct (Hsh r' H') as (r1 & Hr1 & Eg1 & Ec1 & Hh & _).
     assert (Ht : In r1 todo) by (apply filter_In; split; [assumption|apply N.eqb_eq; congruence]).
-    destruct (f_tracked r1) eqn:Et.
-    - apply Hrel; [assumption|]. rewrite Eg1. apply in_map. apply filter_In. split; assumption.
-    - destruct (f_held r') eqn:Eh; [reflexivity|]. exfalso.
-      destruct HW as (_ & HF). destruct (HF r1 Hr1) as (_ & _ & T). rewrite T in Et; [discriminate|]. apply Hh. discriminate. }
+    apply Hrel; [assumption|]. rewrite Eg1. apply in_map. apply filter_In. split; [assumption|].
+    apply (proj2 HW r1 Hr1). }
+  assert (Hp : forall r', In r' (s_funcs s1) -> negb (N.eqb (f_ctx r') c) || nonempty (f_held r') = false -> f_held r' = []).
+  { intros r' H' E. apply orb_false_elim in E. destruct E as (E & _). apply negb_false_iff in E. apply Hempty; assumption. }
   destruct HW1 as (HC1 & HF1).
   split; [split|].
   - apply core_filter; assumption.
   - intros r' H'. cbn in H'. apply filter_In in H'. apply HF1. tauto.
   - split; [eapply shrinks_trans; [exact Hsh|apply shrinks_filter]|]. split; [|auto].
-    intros r' H'. cbn in H'. apply filter_In in H'. destruct H' as (_ & E). apply negb_true_iff, N.eqb_neq in E. assumption.
+    intros r' H'. cbn in H'. apply filter_In in H'. destruct H' as (Hin' & E).
+    destruct (N.eqb_spec (f_ctx r') c) as [Ec|Hne]; [|assumption]. exfalso.
+    assert (Hh : f_held r' = []) by (apply Hempty; [assumption|apply N.eqb_eq; assumption]).
+    rewrite Hh in E. cbn in E. discriminate.
 Qed.
 
 (* ---------- ctx.start(): the waiting managers of context c start, oldest first ---------- *)
@@ -1141,6 +1143,22 @@ Proof.
   - cbn. eapply AllCtx_shrinks; eassumption.
 Qed.
 
+(* with every function object recorded in its context the garbage collector has nothing to finalise *)
+Lemma gc_off legacy s : Flags s -> gc all_off legacy s = s.
+Proof.
+  intros HF. assert (Hp : gc_pass all_off legacy s = s).
+  { unfold gc_pass. replace (filter (collectable s) (s_funcs s)) with (@nil frec); [reflexivity|].
+    symmetry. assert (H : forall r, In r (s_funcs s) -> f_tracked r = true) by (intros r Hr; apply (HF r Hr)).
+    revert H. induction (s_funcs s) as [|x l IH]; intros H; [reflexivity|]. cbn [filter].
+    unfold collectable at 1. rewrite (H x (or_introl eq_refl)). cbn [negb andb]. rewrite andb_false_r. cbn [andb].
+    apply IH. intros r Hr. apply H. right. assumption. }
+  unfold gc. rewrite !Hp. reflexivity.
+Qed.
+
+Lemma sinv_prune_gc legacy s : WInv s -> NoPend (s_funcs s) -> AllCtx (map fst (s_files s)) (s_funcs s) ->
+  SInv (prune (gc all_off legacy s)).
+Proof. intros HW HNP HA. rewrite (gc_off legacy s (proj2 HW)). apply sinv_prune; assumption. Qed.
+
 Lemma stop_all legacy cs : forall s, WInv s ->
   let s' := fold_left (stop_ctx all_off legacy) cs s in
   WInv s' /\ shrinks (s_funcs s) (s_funcs s') /\ s_files s' = s_files s /\ s_next s' = s_next s.
@@ -1196,11 +1214,11 @@ Proof.
   intros (HW & HNP & HB & HA). unfold run_op.
   destruct o as [c b|c b oracle|c|w oracle].
   - (* exec in a live context *)
-    destruct (loaded s c) eqn:El; [|apply sinv_prune; assumption].
+    destruct (loaded s c) eqn:El; [|apply sinv_prune_gc; assumption].
     apply loaded_In in El.
     destruct (winv_body_imm legacy true c (map fst (s_files s)) b s) as (A & B & C & D & _); auto.
     { destruct legacy; reflexivity. }
-    apply sinv_prune; [assumption|assumption|rewrite D; assumption].
+    apply sinv_prune_gc; [assumption|assumption|rewrite D; assumption].
   - (* (re)load one file *)
     set (s1 := if loaded s c then stop_ctx all_off legacy s c else s).
     assert (H1 : WInv s1 /\ shrinks (s_funcs s) (s_funcs s1) /\ s_files s1 = s_files s).
@@ -1218,17 +1236,17 @@ Proof.
       intros c' H. unfold L2. cbn [s2 set_files s_files]. apply file_set_In. right. rewrite Efi1. assumption. }
     destruct legacy.
     + destruct (winv_body_imm true false c L2 b s2) as (A & B & C & D & _); auto.
-      apply sinv_prune; [assumption|assumption|rewrite D; assumption].
+      apply sinv_prune_gc; [assumption|assumption|rewrite D; assumption].
     + destruct (winv_body_pend c L2 [c] b s2) as (A & B & C & D & E & _); auto.
       { apply NoPend_K; assumption. } { apply NoPend_PendIn; assumption. } { left; reflexivity. }
       destruct (winv_start_ctx oracle _ c L2 [] A B C D) as (A' & _ & C' & D' & E' & _).
-      apply sinv_prune; [assumption| |rewrite E', E; assumption].
+      apply sinv_prune_gc; [assumption| |rewrite E', E; assumption].
       intros r Hr. destruct (f_pending r) eqn:Ep; [|reflexivity]. destruct (D' r Hr Ep).
   - (* unload *)
-    destruct (loaded s c) eqn:El; [|apply sinv_prune; assumption].
+    destruct (loaded s c) eqn:El; [|apply sinv_prune_gc; assumption].
     destruct (winv_stop_ctx legacy s c HW) as (A & B & N & C & _).
     set (s1 := stop_ctx all_off legacy s c) in *.
-    apply sinv_prune.
+    apply sinv_prune_gc.
     + destruct A; split; [apply core_set_files; assumption|assumption].
     + cbn [set_files s_funcs]. eapply NoPend_shrinks; eassumption.
     + cbn [set_files s_funcs s_files]. intros r Hr. apply file_del_In. split; [apply N; assumption|]. rewrite C.
@@ -1246,13 +1264,13 @@ Proof.
     assert (HL : forall p, In p (s_files s2) -> In (fst p) L2) by (intros p Hp; unfold L2; apply in_map; assumption).
     destruct legacy.
     + destruct (bodies_imm true L2 (s_files s2) s2) as (A & B & C & D); auto.
-      apply sinv_prune; [assumption|assumption|rewrite D; assumption].
+      apply sinv_prune_gc; [assumption|assumption|rewrite D; assumption].
     + destruct (bodies_pend L2 (s_files s2) s2) as (A & B & C & D & E); auto.
       { apply NoPend_K; assumption. } { apply NoPend_PendIn; assumption. }
       set (s3 := fold_left (fun s p => run_body all_off false false (fst p) (snd p) s) (s_files s2) s2) in *.
       destruct (starts_all oracle L2 (map fst (s_files s3)) s3 A B C) as (A' & B' & C' & D').
       { rewrite E. exact D. }
-      apply sinv_prune; [assumption|assumption|].
+      apply sinv_prune_gc; [assumption|assumption|].
       rewrite D'. eapply AllCtx_mono; [|exact C']. intros c0 H. unfold L2 in H. rewrite <- E in H. exact H.
 Qed.
 
@@ -1399,7 +1417,14 @@ Theorem define_effective legacy ops c f decl d :
 Proof.
   cbn zeta. set (s := run_ops all_off legacy ops init_st). intros Hl.
   destruct (sinv_run_ops legacy ops init_st sinv_init) as ((HC & HF) & HNP & HB & HA). fold s in HC, HF, HNP, HB, HA.
-  unfold run_op. rewrite Hl. unfold run_body. cbn [fold_left run_stmt]. rewrite do_def_off. cbn zeta.
+  unfold run_op. rewrite Hl. unfold run_body. cbn [fold_left run_stmt].
+  assert (HWd : WInv (do_def all_off legacy true c f decl d s)).
+  { apply (winv_do_def_imm legacy true c f decl d s (map fst (s_files s))); auto.
+    - destruct legacy; reflexivity.
+    - split; assumption.
+    - apply loaded_In; assumption. }
+  rewrite (gc_off legacy _ (proj2 HWd)). clear HWd.
+  rewrite do_def_off. cbn zeta.
   replace (negb legacy && negb true) with false by (destruct legacy; reflexivity).
   set (g := s_next s). set (nr := mk_frec c f g (eff_sr legacy d) (nodupN decl) [] true true false).
   set (s1 := set_funcs (set_next s (g + 1)) (s_funcs s ++ [nr])).
